@@ -540,6 +540,8 @@ class FileRef:
                 raise Invalid()
             self.dirs.add(t[2])
             return "ok"
+        if op == "fds":
+            return "n=%d" % sum(1 for o in self.objs.values() if o is not None)      # one descriptor per open File, nothing else
         if op == "fsize":
             return "n=%d" % len(self.files[t[2]]) if t[2] in self.files else "!NotFound"
         if op == "cat":
@@ -1010,26 +1012,39 @@ def run_impl(binary, wd, cases, tag, timeout=None):
     return outs, dirs
 
 
+IMPL_ONLY = {"ps": "ps fds", "file": "file fds"}
+
+
 def run_model(cases, tag):
+    """model outputs; `<tag> fds` (descriptors still open) is a question to the process, not to the model: the line is not sent
+    and the oracle's answer is put in its place"""
+    q = IMPL_ONLY.get(tag)
     if tag == "file":
         cases = [dealias_case(c) for c in cases]
-    if tag == "ps":
-        # `ps fds` (descriptors still open) is a question to the process, not to the model: answered `n=0` on its behalf
-        stripped = [[l for l in c if l != "ps fds"] for c in cases]
-        outs = seqtie.run_stream(None, stripped, tag + " reset", is_driver=True, timeout=HARNESS_TIMEOUT)
-        res = []
-        for c, o in zip(cases, outs):
-            it = iter(o)
-            row = []
-            for l in c:
-                if l == "ps fds":
-                    row.append("n=0")
-                else:
-                    row.append(next(it, "<missing>"))
-            row += list(it)
-            res.append(row)
-        return res
-    return seqtie.run_stream(None, cases, tag + " reset", is_driver=True, timeout=HARNESS_TIMEOUT)
+    stripped = [[l for l in c if l != q] for c in cases]
+    outs = seqtie.run_stream(None, stripped, tag + " reset", is_driver=True, timeout=HARNESS_TIMEOUT)
+    if not any(q in c for c in cases):
+        return outs
+    res = []
+    expected = fs_expected if tag == "ps" else file_expected
+    for c, o in zip(cases, outs):
+        if q not in c:
+            res.append(o)
+            continue
+        try:
+            e = expected(c)
+        except Exception:
+            e = None
+        it = iter(o)
+        row = []
+        for i, l in enumerate(c):
+            if l == q:
+                row.append(e[i] if e is not None else "n=0")
+            else:
+                row.append(next(it, "<missing>"))
+        row += list(it)
+        res.append(row)
+    return res
 
 
 def run_batched(binary, wd, cases, exp, tag, first, size):
@@ -1125,6 +1140,7 @@ def tie_file(res, binary, wd, tier, rng):
     corpus = [c for c in lib.load_corpus("pathfile") if c and c[0].startswith("file ")]
     cases = corpus + gen_file_cases(rng, tier)
     cases = [c for c in cases if file_valid(c)]
+    cases = [c + ["file fds"] if c[-1] != "file fds" else c for c in cases]
     exp = [file_expected(c) for c in cases]
     impl, _, nrun = run_batched(binary, wd, cases, exp, "file", 200, 1000)
     cases, exp = cases[:nrun], exp[:nrun]
